@@ -13,7 +13,7 @@ fn exclude(p: &Node) -> Option<&'static str> {
 }
 
 pub fn run(ctx: &Ctx) -> Outcome {
-    let sp = spaces::c01_space(ctx.tier, ctx.seed, true, 4, 4, 2, 3, 3_000, 40_000);
+    let sp = spaces::c01_space(ctx.tier, ctx.seed, true, 4, 4, 2, 3, 80_000, 250_000);
     let texts = spaces::texts_c01(ctx.tier.pick(3, 4));
     let cfg = DiffCfg { prop: "C15", compare: Compare::All, entry_points: false, ref_budget: crate::refm::BUDGET, step_cap: Some(2_000_000), exclude: &exclude, static_known: &diff::no_static_known, style: None, f1_compat: false };
     let mut acc = diff::run(ctx, &cfg, &sp.patterns, &texts);
